@@ -6,7 +6,7 @@ TRUSTED = "reference model refchess (perft-gated at every run, cross-checked aga
 
 CHECKS = {
  "C01": ("model_checking", "explicit-state BFS over positions (real move_new/legals in lock-step with a reference model) + complete small-material families",
-         "Every state of a BFS from 140 roots (start to depth 4 quick / 6 thorough) and every member of the en-passant, castling and promotion small-material families: generated move set == reference legal set (no duplicates), is_legal agrees on every legal move, every near miss, and on all 20480 triples for shallow and strided states.", "3 C01"),
+         "Every state of a BFS from ~150 roots (start to depth 4 quick / 6 thorough) and every member of the small-material families (en passant with one or two capturers, the same positions reached by PLAYING the double push, castling, promotion, promotion pins, pawn pushes, kings+1): generated move set == reference legal set (no duplicates), is_legal agrees on every legal move, every near miss, and on all 20480 triples for shallow and strided states; played successors that differ from the rebuilt position are checked themselves; a fatal signal inside the implementation is a reported violation.", "3 C01"),
  "C02": ("model_checking", "explicit-state BFS: every transition executed on the real Board and the reference, successors compared field by field; illegal triples offered to all three checked operations",
          "Every transition of the BFS and the special-move transitions of the families: successor placement, side, rights, ep marker, clocks equal the reference successor and the re-parsed reference FEN; move_new/move_mut/move_into agree; refused moves leave board/output untouched.", "3 C02"),
  "C03": ("model_checking", "explicit-state BFS with differential oracle: played-to board vs the same position rebuilt from text",
@@ -16,7 +16,7 @@ CHECKS = {
  "C05": ("model_checking", "explicit-state BFS + complete FEN field products, writer/parser round trips on every state",
          "Every BFS state and family member: parse(to_string(b)) == b with same clocks/hash/derived state; to_string(parse(fen)) == fen byte for byte; complete field products (16 rights x ep files x sides, clocks 0..9999); standard() vs parser vs builder.", "3 C05"),
  "C06": ("exploration", "complete enumeration of bounded edit distance around seed FENs (all single edits x 256 byte values, all double edits over a per-match-arm alphabet), all short strings, field-spelling products, builder call sequences",
-         "Totality (no panic) on every enumerated byte string; every accepted board satisfies the playability invariants evaluated by the reference model; canonical FENs of reachable positions are accepted and parse to that position; builder sequences likewise.", "3 C06"),
+         "Totality (no panic, also in the overflow-trapping build flavour) on every enumerated byte string; every accepted board satisfies the playability invariants evaluated by the reference model, including the complete domains of the castling-rights and en-passant validations; canonical FENs of reachable positions and of every small-material family member are accepted and parse to that position; builder sequences likewise and equal to the parsed twin.", "3 C06"),
  "C07": ("exploration", "exhaustive drivers of the other properties re-executed in a trapping build (debug assertions + overflow checks + std unsafe-precondition checks) inside worker processes; crash oracle",
          "Every case of the C01/C03/C06(+two-ply safe-API exercise of every accepted board)/C08/C10/C11/C12/C15/C17/C18 drivers plus extremal positions and degenerate search roots runs without panic, overflow trap, failed assertion or fatal signal.", "3 C07"),
  "C08": ("exploration", "complete enumeration of every ray-subset occupancy for 64 squares x 2 sliders against ray casting",
@@ -26,15 +26,15 @@ CHECKS = {
  "C10": ("model_checking", "deviation-bounded stateless exploration of operation sequences on the real MoveGen against a set model (0, 1, 2 mutators at every point; 3 in thorough)",
          "Every run over 32 mutator instances x every placement, driven to exhaustion with len/is_empty/size_hint checked after every step; two data-structure limitations are known findings (F12, F13).", "3 C10"),
  "C11": ("fault_enumeration", "environment-answer enumeration: a counting timeout expires at poll k for every k; one complete real search per (position, k), plugin boundary included",
-         "For every position of the catalogue and every expiry index up to three completed passes (or the cap): terminates, returns no move or a reference-legal move, a move whenever a pass completed and moves exist, no move when none exist.", "3 C11"),
+         "For every position of the catalogue (incl. forced-move roots) and every expiry index up to three completed passes (or the cap): terminates, returns no move or a reference-legal move, a move whenever a pass completed or the search ended by itself and moves exist, no move when none exist; repeated with one Engine reused across two positions, through the plugin boundary, and with a tracing subscriber installed.", "3 C11"),
  "C12": ("exploration", "complete enumeration of KQ-K / KR-K / KP-K positions and mate scenarios, each searched until the first pass completes",
-         "Mate in one is returned with a mate-in-one score whenever the first pass completes, and a mate-in-one score is only reported with a mating move; positional evaluation off and on.", "3 C12"),
+         "Mate in one is returned with a mate-in-one score whenever the first pass completes, and a mate-in-one score is only reported with a mating move; positional evaluation off and on; families include mates that compete with captures, capture-mates into minor-piece endings, promotion-only and knight-under-promotion mates.", "3 C12"),
  "C13": ("exploration", "differential enumeration: every catalogue position vs its colour mirror, scores per completed depth collected over a ladder of expiry points",
          "score_d(position) == negate(score_d(mirror)) for every depth both searches complete below the cap.", "3 C13"),
  "C14": ("exploration", "complete enumeration of pairs/triples over representative scores; thorough: all 65536^2 mate-distance pairs and all 2^32 numeric scores",
          "Total-order laws and the stated preference order on all representative pairs and triples; thorough closes the payload domains.", "3 C14"),
  "C15": ("model_checking", "exhaustive enumeration of call histories (make_move legal/illegal, set_board, evaluate) on the real plugin loaded through the stable ABI, against a reference board and occurrence counter",
-         "Every maximal history over three move alphabets to the stated depths, replayed on a fresh engine: legality gate, board == reference successor, repetition flag exactly on the third occurrence since the board was set, proposals legal.", "3 C15"),
+         "Every maximal history over three move alphabets to the stated depths, illegal submissions at every position, set_board of every catalogue root with every two-move sequence and with four-ply cycles played three times, the plugin's own suggestions submitted back; replayed on a fresh engine: legality gate, board == reference successor, repetition flag exactly on the third occurrence since the board was set, proposals legal.", "3 C15"),
  "C16": ("exploration", "complete enumeration of all 20481 optional moves and all mate distances; numeric scores exhaustive in thorough",
          "Round trip identity through the ABI-stable encodings for every move and score enumerated.", "3 C16"),
  "C17": ("exploration", "complete depth-first walk of the embedded book trie with the real Board and the reference in lock-step (trapping build)",
